@@ -1,6 +1,7 @@
 (* case formats (all strings hex-encoded, "-" = empty):
      C20 tp <Type> <hex of string>          parse the string:  "ok <value>" | "err <class>"
      C20 tr <Type> <value>                  print the value and parse it back:  "<hex of printed string> ok <value>" | "... err <class>"
+     C20 ps <hex of a PSET>                 derived PartiallySignedTransaction serde (exploration in support): fixed token "pset-serde"
      C20 sd <type> <caps> <points> <hex>    serde: the value is given by its consensus encoding (types tx txin1 txout1 header block params value
                                             asset nonce) or directly (outpoint <txid>:<vout>, secrets <asset>,<abf>,<value>,<vbf>, locktime <u32>,
                                             hash:<Name> <hex>, abf / vbf <hex>, script <hex>, str <hex of a Display string>);
@@ -211,6 +212,8 @@ Definition run (args : list bytes) : bytes :=
         | Some s => show_hex s ++ sp ++ run_parse ty s
         | None => err "value" end
       else err "kind"
-  | [k; name] => if bytes_eqb k "dm"%lb then run_probe name else err "kind"
+  | [k; name] => if bytes_eqb k "dm"%lb then run_probe name
+                 else if bytes_eqb k "ps"%lb then "pset-serde"%lb     (* derived PSET serde: no model, the harness evaluates the predicate only *)
+                 else err "kind"
   | [k; ty; caps; pts; a] => if bytes_eqb k "sd"%lb then run_serde ty caps pts a else err "kind"
   | _ => err "args" end.
